@@ -4,7 +4,7 @@ EXTENDS Naturals, Sequences, TLC, Json, IOUtils
 TraceLines == ndJsonDeserialize(IOEnv.TRACE_FILE)
 Verbose == IOEnv.VERBOSE = "1"
 \* evaluated as an INVARIANT: reports consumed traces ("ACCEPT tid") and, when VERBOSE=1, positions
-Report(tid, l, len) == /\ (l = len + 1) => PrintT("ACCEPT " \o ToString(tid))
+TraceReport(tid, l, len) == /\ (l = len + 1) => PrintT("ACCEPT " \o ToString(tid))
                        /\ Verbose => PrintT("AT " \o ToString(tid) \o " " \o ToString(l))
 SeqToSet(s) == {s[i] : i \in DOMAIN s}
 =============================================================================
